@@ -119,29 +119,43 @@ def r3_driver(ctx):
 
 
 def r4_initialization(ctx):
+    """the initialization driver on the REAL population stack (0..1 populations already there): afterwards exactly one
+    more population lies on top - the produced solutions, in order, each as an unevaluated individual - and whatever was
+    underneath is untouched"""
+    from c04 import StackModel
     F = ctx.facts
     fn = F.fn("mahf::components::initialization::initialization")
+    POP = "mahf::state::common::Populations"
+    sf = F.field_index(POP, "stack")
     bad = []
-    for size in range(0, 4):
-        def initialize(interp, env, f, args, size=size):
-            return new_vec(interp, [Sym("s:%d" % i) for i in range(size)])
-
-        def pushf(interp, env, f, args):
-            interp.mstate["pushed"] = interp.mstate.get("pushed", ()) + (args[1],)
-            return Agg("tuple", None, None, [])
-        table = {"mahf::state::State::populations_mut": Sym("populations"), "mahf::state::State::random_mut": Sym("rng"),
-                 "mahf::components::initialization::Initialization::initialize": initialize, "mahf::state::common::Populations::push": pushf}
-        it = install(Interp(fn.body, chain(mk_oracle(table), coll_oracle, std_oracle), [Sym("component"), Sym("problem"), Sym("state")], facts=F, inline=INL, max_visits=12))
-        for p in it.run():
-            pushed = p.mstate.get("pushed", ())
-            if p.end != "return" or len(pushed) != 1 or not isinstance(pushed[0], Vec):
-                bad.append((size, "%s, %d pushes" % (p.end, len(pushed))))
-                continue
-            items = p.mstate["heap"].get(pushed[0].vid, ())
-            got = [(getattr(x.fields[0], "tag", "?"), x.fields[1].variant if isinstance(x.fields[1], Agg) else "?") if isinstance(x, Agg) and x.name == c07.IND else ("?", "?") for x in items]
-            want = [("s:%d" % i, "None") for i in range(size)]
-            if got != want:
-                bad.append((size, "pushes %s, expected the %d produced solutions as unevaluated individuals" % (got, size)))
+    for below in ((), ("b0",)):
+        for size in range(0, 4):
+            def initialize(interp, env, f, args, size=size):
+                return new_vec(interp, [Sym("s:%d" % i) for i in range(size)])
+            popsym = Sym("populations", {sf: Sym("stack")})
+            table = {"mahf::state::State::populations_mut": popsym, "mahf::state::State::populations": popsym, "mahf::state::State::random_mut": Sym("rng"),
+                     "mahf::components::initialization::Initialization::initialize": initialize}
+            it = install(Interp(fn.body, chain(mk_oracle(table), StackModel(sf), coll_oracle, std_oracle), [Sym("component"), Sym("problem"), Sym("state")], facts=F,
+                                inline=lambda k: k.startswith(POP + "::") or INL(k), max_visits=12))
+            it.init_state = {"stack": tuple(Vec(x) for x in below), "heap": {x: (c07.ind(x),) for x in below}, "next_vec": 0}
+            for p in it.run():
+                st = list(p.mstate.get("stack", ()))
+                names = [getattr(x, "vid", repr(x)) for x in st]
+                ctxs = "%d, %d population(s) already on the stack" % (size, len(below))
+                if p.mstate.get("unmodelled"):
+                    bad.append((ctxs, "applies %s to the stack" % (p.mstate["unmodelled"],)))
+                    continue
+                if p.end != "return" or not (isinstance(p.ret, Agg) and p.ret.variant == "Ok") or len(st) != len(below) + 1 or names[:len(below)] != list(below):
+                    bad.append((ctxs, "%s, stack %s (expected Ok and one new population on top of %s)" % (p.end, names, list(below))))
+                    continue
+                if any([c07.otag(x) for x in p.mstate["heap"].get(x_, ())] != ["o:%s" % x_] for x_ in below):
+                    bad.append((ctxs, "modifies the population underneath"))
+                    continue
+                items = p.mstate["heap"].get(st[-1].vid, ()) if isinstance(st[-1], Vec) else ()
+                got = [(getattr(x.fields[0], "tag", "?"), x.fields[1].variant if isinstance(x.fields[1], Agg) else "?") if isinstance(x, Agg) and x.name == c07.IND else ("?", "?") for x in items]
+                want = [("s:%d" % i, "None") for i in range(size)]
+                if got != want:
+                    bad.append((ctxs, "pushes %s, expected the %d produced solutions as unevaluated individuals" % (got, size)))
     ctx.check(not bad, "C14.R4", fn.key, "pushes-unevaluated-once", "initialize() producing %s solutions: the driver %s" % (bad[0] if bad else ("", "")), loc=fn.loc())
     impls = [f for f in F.all_fns if f.impl_trait == "mahf::components::initialization::Initialization" and f.name == "initialize"]
     ctx.floor("C14.R4", "Initialization implementations", len(impls), 3)
